@@ -218,3 +218,11 @@ R.contract(f'{PE}.wait',
              C("forall('Fid', lambda i: implies((i in RUN(self)) and (i not in old(RUN(self))), (proc_ctx(RUN(self)[i][1]) == self.mp_context)))", 'started from own context', serves=('C16',)),
              ],
     frame=['self._pending_future_to_thunk', 'self._running_id_to_future_and_process', 'Fut._state', 'Fut._ex', 'Fut._result'])
+
+
+# C14, scope S2: a KeyboardInterrupt delivered at any statement boundary inside the executor's own methods leaves the
+# executor well-formed (the coordinator's handler then calls cancel()/wait()/stop() on it)
+R.macro('EXEC_SHAPE', ['e'], """forall('Fid', lambda i: implies(i in RUN(e), RUN(e)[i][0].id == i))
+    and forall('Fut', lambda f: implies(f in PEND(e), f.id not in RUN(e)))""")
+for _m in ('_start_processes', 'submit', 'cancel', 'stop', 'wait'):
+    R.contracts[f'{PE}.{_m}'].interrupt_exit = [C('EXEC_SHAPE(self)', 'INTERRUPTED INSIDE: at every interrupt instant of this method the maps are well-formed: running entries keyed by the id of their future, and no future both queued and running', serves=('C14',))]
